@@ -92,6 +92,27 @@ def one_tree(args):
             if set(ref) - set(pre):
                 res['problems'].append(f"pre-populated output directory: files missing {sorted(set(ref) - set(pre))[:3]}")
         res['runs'] += 1
+    # the project's own entry point: `python protocol.py generate` cleans src/eolib/protocol/_generated (here holding another tree's output
+    # and a stray file) and generates from eo-protocol/xml; `python protocol.py clean` removes the directory
+    if os.path.exists(os.path.join(root, 'protocol.py')):
+        proj = os.path.join(base, 'proj')
+        write_xml(tree, os.path.join(proj, 'eo-protocol', 'xml'))
+        shutil.copy2(os.path.join(root, 'protocol.py'), os.path.join(proj, 'protocol.py'))
+        gdir = os.path.join(proj, 'src', 'eolib', 'protocol', '_generated')
+        if other is not None and os.path.isdir(os.path.join(base, 'out-prepopulated')):
+            shutil.copytree(os.path.join(base, 'out-prepopulated'), gdir)
+        os.makedirs(os.path.join(gdir, 'stale_dir'), exist_ok=True)
+        open(os.path.join(gdir, 'stale_dir', 'left_over.py'), 'w').write('raise RuntimeError("stale")\n')
+        env = dict(os.environ, PYTHONPATH=root, PYTHONHASHSEED='8', PYTHONDONTWRITEBYTECODE='1')
+        p = subprocess.run([PY, 'protocol.py', 'generate'], cwd=proj, env=env, capture_output=True, text=True, timeout=300)
+        res['runs'] += 1
+        if p.returncode != 0:
+            res['problems'].append(f"`protocol.py generate` failed: {(p.stderr or p.stdout)[-300:]}")
+        else:
+            outs['protocol.py-generate'] = read_tree(gdir)
+            p = subprocess.run([PY, 'protocol.py', 'clean'], cwd=proj, env=env, capture_output=True, text=True, timeout=300)
+            if p.returncode != 0 or os.path.exists(gdir):
+                res['problems'].append(f"`protocol.py clean` left {gdir} behind ({(p.stderr or '')[-200:]})")
     ref = outs.get('hashseed-0')
     if ref is not None:
         for vname, files in outs.items():
@@ -167,7 +188,7 @@ def run(tier):
         except CoqCaseError as ex:
             C.broken.append(dict(kind='correspondence', stream='rejected-trees', msg=str(ex)[-500:]))
     C.cov['random_trees_rejected_by_generator_and_model'] = [r['name'] for t, r in rejected]
-    C.stream('oracle.determinism', runs, runs, sample=dict(tree=trees[0]['name'], variants=[v[0] for v in VARIANTS] + ['same-object-twice', 'same-object-after-failed-run', 'created-reversed', 'second-run-same-dir', 'pre-populated']))
+    C.stream('oracle.determinism', runs, runs, sample=dict(tree=trees[0]['name'], variants=[v[0] for v in VARIANTS] + ['same-object-twice', 'same-object-after-failed-run', 'created-reversed', 'second-run-same-dir', 'pre-populated', 'protocol.py generate / clean']))
     C.cov['distribution'] = dict(trees=len(trees), generator_runs=runs)
     # ---- correspondence with Model/GenPkg.v: file set and __init__ star-imports
     fn = os.path.join(CASES, 'c18.v')
@@ -210,4 +231,17 @@ def load_generator_module(C, name):
 
 
 def replay(path):
-    return gen_replay(path)
+    """regenerates the recorded tree in all variants (hash seeds, walk orders, object reuse, pre-populated directory, protocol.py) and imports it"""
+    r = json.load(open(path))
+    inp = r.get('input')
+    if not isinstance(inp, dict) or 'xml' not in inp:
+        return replay_broken(r, 'C18')
+    S = Scratch()
+    work = os.path.join(S.dir, 'c18')
+    os.makedirs(work)
+    tree = xml_to_tree(inp['xml'])
+    res = one_tree((0, inp.get('tree', 'replayed'), tree, S.dir, work, empty_tree()))
+    probs = res.get('problems', []) + ([f"the generator rejects the tree: {res['rejected']}"] if res.get('rejected') else [])
+    known = {'dir-name-collision', 'dir-import-cycle'}
+    print("replay:", probs[0] if probs else "property holds on this input")
+    return 1 if probs else 0
